@@ -1,4 +1,5 @@
 /// SplitMix64: every random choice of a run derives from one state.
+#[derive(Clone)]
 pub struct Rng(pub u64);
 impl Rng {
     pub fn new(seed: u64) -> Self { Rng(seed.wrapping_mul(0x9E3779B97F4A7C15) ^ 0xD1B54A32D192ED03) }
